@@ -1868,6 +1868,161 @@ func runC17(c *Ctx) {
 		}
 	}
 
+	// special key VALUES at special POSITIONS: the zero value of the key type, ±1, the int64
+	// extremes, 2^31, 2^32, 2^53 (names: "", NUL, FF, a byte-order mark, 127/128 bytes) as the only
+	// key of the last leaf, as the least key, as first and as last key of a leaf, and at the leaf
+	// boundary between two intermediate nodes.  All writer paths in turn; every key is looked up
+	// with both readers; neighbours of the special value are probed as absent keys.
+	{
+		caseNo := 0
+		writers := []struct {
+			via    int
+			useMap bool
+		}{{0, false}, {2, false}, {3, false}, {0, true}}
+		runNum := func(keys []pdf.Integer, v pdf.Integer, big bool) {
+			var probes []pdf.Integer
+			if !big {
+				probes = append(probes, keys...)
+			} else {
+				for _, i := range trsStructIdx(r.Fork(), len(keys), F) {
+					probes = append(probes, keys[i])
+				}
+				probes = append(probes, v)
+			}
+			for _, d := range []int64{-2, -1, 1, 2} {
+				q := int64(v) + d
+				if (d > 0) == (q > int64(v)) { // no overflow
+					probes = append(probes, pdf.Integer(q))
+				}
+			}
+			probes = append(probes, 0, -1, 1, math.MinInt64, math.MaxInt64, 1<<53, -(1 << 53), 1<<53+1)
+			wr := writers[caseNo%3]
+			caseNo++
+			tc := &trsTreeCase[pdf.Integer]{keys, probes, caseNo % 2, false, 0, wr.via}
+			enc := trsEncodeCase(&trsNumAPI, tc)
+			line, fails := trsRunCase(&trsNumAPI, tc)
+			op := "nt"
+			if big {
+				op = "ntb"
+				line = trsBigLine(line)
+			}
+			opLine := "TRS " + op + " num " + trsToks(&trsNumAPI, keys) + " " + trsToks(&trsNumAPI, probes)
+			c.Stat("numtree")
+			c.Stat(fmt.Sprintf("special_writer_via%d", wr.via))
+			record(len(keys), "special-position", false, 0, enc, opLine, line, fails)
+		}
+		// keys lo..hi around v (consecutive integers or with gaps), if they fit into int64
+		around := func(v int64, below, above int, gap int64) ([]pdf.Integer, bool) {
+			var keys []pdf.Integer
+			for i := below; i >= 1; i-- {
+				d := int64(i) * gap
+				if v < math.MinInt64+d {
+					return nil, false
+				}
+				keys = append(keys, pdf.Integer(v-d))
+			}
+			keys = append(keys, pdf.Integer(v))
+			for i := 1; i <= above; i++ {
+				d := int64(i) * gap
+				if v > math.MaxInt64-d {
+					return nil, false
+				}
+				keys = append(keys, pdf.Integer(v+d))
+			}
+			return keys, true
+		}
+		specialInts := []int64{0, -1, 1, math.MinInt64, math.MinInt64 + 1, math.MaxInt64, math.MaxInt64 - 1,
+			1 << 53, -(1 << 53), 1<<53 + 1, -(1<<53 + 1), 1 << 31, -(1 << 31), 1 << 32, -(1 << 32)}
+		for vi, v := range specialInts {
+			gap := int64(1)
+			if vi%3 == 1 {
+				gap = 1000003
+			}
+			shapes := []struct{ below, above int }{
+				{0, 0},         // the only key
+				{F, 0},         // only key of the last leaf, the greatest key
+				{2 * F, 0},     // the same with an intermediate node of three leaves
+				{0, F},         // least key; the last leaf holds one other key
+				{0, 2*F - 1},   // first key of the first leaf
+				{F, F - 1},     // first key of the second leaf
+				{F - 1, F + 1}, // last key of the first leaf
+				{2*F - 1, 1},   // last key of the second leaf, one leaf after it
+				{F - 1, 0},     // last key of a root that holds the entries itself
+				{F - 2, 0},     // the same, one entry fewer
+			}
+			for _, sh := range shapes {
+				if keys, ok := around(v, sh.below, sh.above, gap); ok {
+					runNum(keys, pdf.Integer(v), false)
+				}
+			}
+		}
+		// the boundary between two intermediate nodes (first/last key below a node of depth 1)
+		for _, v := range []int64{0, math.MaxInt64, math.MinInt64, 1 << 53} {
+			for _, sh := range []struct{ below, above int }{{F * F, F}, {F*F - 1, F + 1}, {F*F + F, 0}, {0, F*F + 1}} {
+				if !c.Thorough && (v != 0 || sh.below == F*F-1) && !(v == math.MaxInt64 && sh.above == 0) && !(v == math.MinInt64 && sh.below == 0) {
+					continue
+				}
+				if keys, ok := around(v, sh.below, sh.above, 1); ok {
+					runNum(keys, pdf.Integer(v), true)
+				}
+			}
+		}
+
+		// names: lower keys start with 'a' (below every special value used here that has one),
+		// upper keys are extensions of the special value
+		lower := func(n int) []string {
+			out := make([]string, n)
+			for i := range out {
+				out[i] = fmt.Sprintf("a%05d", i)
+			}
+			return out
+		}
+		upper := func(v string, n int) []string {
+			out := make([]string, 0, n)
+			for i := 0; len(out) < n; i++ {
+				out = append(out, v+string([]byte{byte(i % 256)})+strings.Repeat("\x00", i/256))
+			}
+			sort.Strings(out)
+			return out
+		}
+		specialNames := []string{"", "\x00", "\xff", "\xfe\xff", "\xfe\xff\x00A", "\xff\xfe", "\xef\xbb\xbf",
+			strings.Repeat("k", 127), strings.Repeat("k", 128), strings.Repeat("\xff", 128)}
+		for _, v := range specialNames {
+			canBelow := len(v) > 0 && v[0] > 'a'
+			shapes := []struct{ below, above int }{{0, 0}, {F, 0}, {2 * F, 0}, {0, F}, {0, 2*F - 1}, {F, F - 1}, {F - 1, F + 1}, {2*F - 1, 1}, {F - 1, 0}}
+			for _, sh := range shapes {
+				var ks []string
+				switch {
+				case sh.below == 0:
+				case canBelow:
+					ks = append(ks, lower(sh.below)...)
+				case v == "\x00" && sh.below == F:
+					// only "" is below NUL: make NUL the second key instead
+					ks = append(ks, "")
+				default:
+					continue
+				}
+				ks = append(ks, v)
+				ks = append(ks, upper(v, sh.above)...)
+				keys := trsSortedNames(ks)
+				probes := append([]pdf.Name(nil), keys...)
+				probes = append(probes, trsCodecVariants(pdf.Name(v))...)
+				probes = append(probes, pdf.Name(v+"\x00\x00\x00"), pdf.Name(v+"\xff\xff"), "", "\x00", "a", "\xff")
+				if len(v) > 0 {
+					probes = append(probes, pdf.Name(v[:len(v)-1]))
+				}
+				wr := writers[caseNo%4]
+				caseNo++
+				tc := &trsTreeCase[pdf.Name]{keys, probes, caseNo % 2, wr.useMap, 0, wr.via}
+				enc := trsEncodeCase(&trsNameAPI, tc)
+				line, fails := trsRunCase(&trsNameAPI, tc)
+				opLine := "TRS nt name " + trsToks(&trsNameAPI, keys) + " " + trsToks(&trsNameAPI, probes)
+				c.Stat("nametree")
+				record(len(keys), "special-position", wr.useMap, 0, enc, opLine, line, fails)
+			}
+		}
+	}
+
 	// the tree written plainly and while a stream is open on the pdf.Writer: every Put of a
 	// node is then only queued and serialised when the stream closes, so anything the tree
 	// writer reuses between nodes would show up in all queued nodes.  Every present key is
